@@ -43,6 +43,21 @@ func init() {
 					last.set("matrix", dMap(dkv{"setup", dMap(dkv{"os", dList(dStr("linux"), dStr("mac"))})}, dkv{"pools", pools}))
 				}
 			}
+			// some steps arrive with a signature block already in the document (signed earlier, edited since)
+			var presign func(l *dv)
+			presign = func(l *dv) {
+				for _, st := range l.l {
+					if st.kind != 'm' {
+						continue
+					}
+					if sub := st.get("steps"); sub != nil && sub.kind == 'l' {
+						presign(sub)
+					} else if (st.has("command") || st.has("commands") || st.has("plugins")) && rng.Chance(25) {
+						st.set("signature", dMap(dkv{"algorithm", dStr(sx.Pick(rng, []string{"EdDSA", "ES256", "PS512"}))}, dkv{"signed_fields", dList(dStr("command"))}, dkv{"value", dStr("c3RhbGU..stale")}))
+					}
+				}
+			}
+			presign(steps)
 			doc := dMap(dkv{"steps", steps})
 			if len(penv) > 0 && rng.Chance(60) {
 				e := dMap()
